@@ -117,6 +117,21 @@ check("C02",
       "TLA+ Build/Rebuild functions (C02_Build) checked with TLC over an exhaustive raw-input family; replay through 4 container types; TLC trace validation (C02_Trace, C01_Trace)",
       "DESIGN.md 6.2")
 
+check("C03",
+      "TLC enumerates every conforming tetrahedral complex on <= 6 vertices with <= 3 (quick) / 4 (thorough) cells and explores "
+      "the lazy-cache state graph of VolumeMesh (100 cache states x 24 query kinds; NoSpuriousFailure; the as-built table fails). "
+      "Each complex (random generic lattice embedding, random numbering and cell vertex order, or all cells positively oriented), "
+      "Kuhn subdivisions of cube grids with random sub-selection, built from lists / tuples / numpy rows / from_arrays, is queried "
+      "with every argument of every kind along every transition of the cache graph and in random permutations (sorting on/off); "
+      "TLC judges every answer against TetCore: face-cell incidence, i-th face opposite i-th vertex, cell adjacency, rotational "
+      "rings around edges, border classification, and for boundary_connectivity / extract_boundary_of_volume: exactly the border "
+      "faces, closed, outward by the integer determinant, index maps mutually inverse and consistent.",
+      "Complexes whose cells around some edge are not linked through faces (tetrahedra touching along an edge only) are outside "
+      "'rotational order' and skipped. 'Positively oriented' is the library's convention det(A-D,B-D,C-D) > 0. Embeddings may overlap "
+      "geometrically (orientation is judged per cell). Trusted: TLC, TetCore.tla.",
+      "TLA+ oracle (TetCore) + cache-state model (C03_MC) + exhaustive enumeration (TetEnum) with TLC; replay into VolumeMesh; TLC trace validation (C03_Trace)",
+      "DESIGN.md 6.3")
+
 ALL = ["C%02d" % i for i in range(1, 21)]
 
 
